@@ -15,12 +15,12 @@ RULE = ("vectors of <=8 carrier triples (x,y,z) + naturals (m,n<=50) per semirin
         "distributivity, from_int homomorphism, sub(x,y)+y=x (y<=x): 4 ulp (Real) / 8*eps*max(1,|.|) absolute (Log), judged "
         "only where exact partial results (fractions) neither overflow nor underflow; star against the closed form of the "
         "least solution (decimal arithmetic, 60-420 digits, for Log); Tensor vs PatternedTensor (typed patterns whose dense twins are the "
-        "same vectors, zero or foreign default) agreement of add/mul/sub. non-trivial = triple has >=2 distinct elements and "
+        "same vectors, zero or foreign default; equal shapes or one operand with fewer dimensions that the operation broadcasts; also same-pattern pairs) agreement of add/mul/sub. non-trivial = triple has >=2 distinct elements and "
         "one of {zero, infinite element, value within 2 ulp of the radius of convergence, patterned operand}; distinct by case hash")
 ASSUMPTIONS = ["Real carrier is [0,inf]; Log/Viterbi carrier is [-inf,inf] without NaN", "IEEE range effects (overflow, underflow, "
                "subnormal results) are not law violations: such triples are skipped for the inexact laws and counted",
                "transcendental references use decimal arithmetic at 60 (420 near the radius) digits, rounded once"]
-ESSENTIAL_LABELS = ['has-zero', 'has-inf', 'near-radius', 'patterned-operand', 'subnormal', 'huge']
+ESSENTIAL_LABELS = ['has-zero', 'has-inf', 'near-radius', 'patterned-operand', 'subnormal', 'huge', 'broadcast-left', 'broadcast-right', 'common-pattern']
 KINDS = ['real', 'log', 'viterbi', 'bool']
 getcontext().prec = 60
 
@@ -58,16 +58,24 @@ def cases(draw, tier):
     xs, ys, zs = [t[0] for t in trip], [t[1] for t in trip], [t[2] for t in trip]
     m, n = draw(st.integers(0, 50)), draw(st.integers(0, 50))
     # patterned operands: two typed patterns of one shape whose physical values come from the carrier
-    nd = draw(st.integers(1, 2))
-    tys = [draw(gp.types(max_numel=8, depth=2)) for _ in range(nd)]
+    nd = draw(st.sampled_from([1, 2, 2, 3]))
+    tys = [draw(gp.types(max_numel=8 if nd < 3 else 4, depth=2)) for _ in range(nd)]
+    # shapes: equal, or one operand has fewer (trailing) dimensions and is broadcast by the operation
+    tya = tyb = tys
+    shape = draw(st.integers(0, 5))
+    if nd > 1 and shape == 0: tyb = tys[draw(st.integers(1, nd)):]
+    if nd > 1 and shape == 1: tya = tys[draw(st.integers(1, nd)):]
+    twin = draw(st.integers(0, 3)) == 0 and tya is tyb      # same pattern, other values and default
     if kind == 'bool':
-        pa = draw(gp.tensor_specs(tys, dtype='bool')); pb = draw(gp.tensor_specs(tys, dtype='bool'))
+        pa = draw(gp.tensor_specs(tya, dtype='bool'))
+        pb = dict(pa, phys=[draw(st.booleans()) for _ in pa['phys']], default=draw(st.booleans())) if twin else draw(gp.tensor_specs(tyb, dtype='bool'))
     else:
         zero = 0.0 if kind == 'real' else -math.inf
         vals = tuple(REAL_SPECIAL if kind == 'real' else LOG_SPECIAL)
         dfl = (zero, zero, zero, 1.0 if kind == 'real' else 0.0, 3.0 if kind == 'real' else -2.0)
-        pa = draw(gp.tensor_specs(tys, values=vals, defaults=dfl, dtype=dtype))
-        pb = draw(gp.tensor_specs(tys, values=vals, defaults=dfl, dtype=dtype))
+        pa = draw(gp.tensor_specs(tya, values=vals, defaults=dfl, dtype=dtype, p_reuse=0.6 if twin else 0.25))
+        pb = dict(pa, phys=[draw(st.sampled_from(vals)) for _ in pa['phys']], default=draw(st.sampled_from(dfl))) if twin else \
+            draw(gp.tensor_specs(tyb, values=vals, defaults=dfl, dtype=dtype))
     return {'kind': kind, 'dtype': dtype, 'xs': xs, 'ys': ys, 'zs': zs, 'm': m, 'n': n, 'pa': pa, 'pb': pb}
 
 
@@ -327,6 +335,8 @@ def check(case, ctx):
     da, db = gp.dense_torch(case['pa']), gp.dense_torch(case['pb'])
     patterned = gp.is_structured(case['pa']) or gp.is_structured(case['pb'])
     if patterned: ctx.label('patterned-operand'); nontriv = True
+    if da.ndim != db.ndim: ctx.label('broadcast-left' if da.ndim < db.ndim else 'broadcast-right')
+    if patterned and case['pa']['vaxes'] == case['pb']['vaxes'] and case['pa']['paxes'] == case['pb']['paxes']: ctx.label('common-pattern')
     for name in ('add', 'mul', 'sub'):
         f = getattr(sr, name)
         try:
